@@ -127,7 +127,7 @@ impl crate::dispatcher::Dispatcher<u8> for NoDispatcher {
 // from running after unsubscribe() has returned if on_notify is called inside a critical section of the same mutex
 // (the membership check and the call are then atomic with respect to the removal).
 #[kani::proof]
-#[kani::unwind(4)]
+#[kani::unwind(5)]
 #[kani::stub(std::time::Instant::now, now_stub_n)]
 fn notify_under_lock() {
     let store = mk();
@@ -135,17 +135,51 @@ fn notify_under_lock() {
         SUBS = Some(&*store.subscribers as *const _);
     }
     let s0: Arc<dyn Subscriber<u8, u8> + Send + Sync> = Arc::new(Probe(0));
-    store.subscribers.lock().unwrap().push(s0.clone());
+    let s1: Arc<dyn Subscriber<u8, u8> + Send + Sync> = Arc::new(Probe(1));
+    {
+        let mut l = store.subscribers.lock().unwrap();
+        l.push(s0.clone());
+        l.push(s1.clone());
+    }
     let d: Arc<dyn crate::dispatcher::Dispatcher<u8>> = Arc::new(NoDispatcher);
     let a: u8 = kani::any();
     let st: u8 = kani::any();
     store.do_notify(&a, &st, d, now_stub_n());
     unsafe {
-        assert!(NOTIFIED[0] == 1 && NOTIFIED[1] == 0, "[O-C09-k-notify-once C09 C03] the registered subscriber is notified exactly once per notifying action");
-        assert!(NOTIFIED_UNDER_LOCK[0] == 1, "[O-C09-k-notify-under-lock C09] on_notify runs inside a critical section of the subscribers mutex (a notification cannot be in flight when unsubscribe() returns)");
-        assert!(RELEASED[0] == 0, "[O-C09-k-notify-no-release C09] notifying never releases");
+        assert!(NOTIFIED[0] == 1 && NOTIFIED[1] == 1, "[O-C09-k-notify-once C09 C03] every registered subscriber is notified exactly once per notifying action");
+        assert!(NOTIFIED_UNDER_LOCK[0] == 1 && NOTIFIED_UNDER_LOCK[1] == 1, "[O-C09-k-notify-under-lock C09] on_notify runs inside a critical section of the subscribers mutex (a notification cannot be in flight when unsubscribe() returns)");
+        assert!(RELEASED[0] == 0 && RELEASED[1] == 0, "[O-C09-k-notify-no-release C09] notifying never releases");
     }
     kani::cover!(true, "harness reaches its end");
     std::mem::forget(store);
     std::mem::forget(s0);
+    std::mem::forget(s1);
+}
+
+// the shutdown release with two registered subscribers (unwind 5)
+#[kani::proof]
+#[kani::unwind(5)]
+fn clear_releases_under_lock_2() {
+    let store = mk();
+    unsafe {
+        SUBS = Some(&*store.subscribers as *const _);
+    }
+    let s0: Arc<dyn Subscriber<u8, u8> + Send + Sync> = Arc::new(Probe(0));
+    let s1: Arc<dyn Subscriber<u8, u8> + Send + Sync> = Arc::new(Probe(1));
+    {
+        let mut l = store.subscribers.lock().unwrap();
+        l.push(s0.clone());
+        l.push(s1.clone());
+    }
+    store.clear_subscribers();
+    unsafe {
+        assert!(store.subscribers.lock().unwrap().len() == 0, "[O-C09-k-clear-empties C09 C04] clear_subscribers empties the list");
+        assert!(RELEASED[0] == 1 && RELEASED[1] == 1, "[O-C09-k-clear-releases-once C09 C04] clear_subscribers releases every registered subscriber exactly once");
+        assert!(RELEASED_UNDER_LOCK[0] == 1 && RELEASED_UNDER_LOCK[1] == 1, "[O-C09-k-clear-release-under-lock C09 C04] the shutdown release happens while the subscribers lock is held (atomic with the removal from the list)");
+        assert!(NOTIFIED[0] + NOTIFIED[1] == 0, "[O-C09-k-no-notify C09] releasing never notifies");
+    }
+    kani::cover!(true, "harness reaches its end");
+    std::mem::forget(store);
+    std::mem::forget(s0);
+    std::mem::forget(s1);
 }
